@@ -37,7 +37,20 @@ const (
 	clsRandom = "random" // randomness source: state irrelevant, must be fresh in ShallowCopy
 	clsCache  = "cache"  // lazily filled lookup table: may legitimately differ / grow
 	clsRebind = "rebind" // the field the copy constructor is documented to replace
+	clsShared = "shared" // large read-only structure compared by identity only (takeSnapshotShared)
 )
+
+// sharedFields are not descended into by takeSnapshotShared (bootstrapping: key sets and encoded DFT matrices of
+// hundreds of megabytes); a ShallowCopy must reference the very same objects.
+var sharedFields = map[string]bool{
+	"bootstrapping.Evaluator.EvaluationKeys": true,
+	"rlwe.Evaluator.EvaluationKeySet":        true,
+	"bootstrapping.Evaluator.S2CDFTMatrix":   true,
+	"bootstrapping.Evaluator.C2SDFTMatrix":   true,
+	"ckks.DomainSwitcher.stdToci":            true,
+	"ckks.DomainSwitcher.ciToStd":            true,
+	"dft.Evaluator.Evaluator":                false,
+}
 
 // fieldClass maps "<struct type>.<field>" to a class. Unknown fields are values (so a newly added, forgotten field is caught).
 var fieldClass = map[string]string{
@@ -96,6 +109,14 @@ func stripIdx(p string) string { return idxRe.ReplaceAllString(p, "[]") }
 type walker struct {
 	s       *snapshot
 	visited map[[2]uintptr]string
+	shared  bool
+}
+
+// takeSnapshotShared is takeSnapshot with the sharedFields recorded by identity only.
+func takeSnapshotShared(obj any) *snapshot {
+	w := &walker{s: &snapshot{nodes: map[string]node{}}, visited: map[[2]uintptr]string{}, shared: true}
+	w.walk(reflect.ValueOf(obj), "", "")
+	return w.s
 }
 
 func takeSnapshot(obj any) *snapshot {
@@ -193,6 +214,21 @@ func addressable(v reflect.Value) reflect.Value {
 }
 
 func (w *walker) walk(v reflect.Value, path, class string) {
+	if class == clsShared {
+		switch v.Kind() {
+		case reflect.Ptr, reflect.Map, reflect.Slice:
+			if v.IsNil() {
+				w.put(path, node{hash: hashOf("nil"), leaf: true, class: class, n: -1})
+			} else {
+				n := -1
+				if v.Kind() != reflect.Ptr {
+					n = v.Len()
+				}
+				w.put(path+"@", node{addr: v.Pointer(), hash: uint64(v.Pointer()), leaf: true, class: class, n: n})
+			}
+			return
+		}
+	}
 	switch v.Kind() {
 	case reflect.Invalid:
 		w.put(path, node{hash: hashOf("invalid"), leaf: true, class: class, n: -1})
@@ -251,6 +287,9 @@ func (w *walker) walk(v reflect.Value, path, class string) {
 			c := class
 			if fc, ok := fieldClass[st+"."+f.Name]; ok && c == "" {
 				c = fc
+			}
+			if w.shared && c == "" && sharedFields[st+"."+f.Name] {
+				c = clsShared
 			}
 			p := path + "." + f.Name
 			if path == "" {
